@@ -235,7 +235,7 @@ def classify(fail, c):
 def run(ctx):
     rng = ctx.rng
     ctx.check_theorems()
-    ctx.check_generated(['padcrop', 'eval', 'kcalls', 'qpat'])
+    ctx.check_generated(['padcrop', 'eval', 'kcalls', 'qpat', 'crop', 'kups'])
 
     # (K) the model pipeline on sharp flat disks (integer data): argmax = disk centre, centre of mass EXACTLY symmetric, and the
     #     hypotheses of the theorems checked by computation on the implementation's actual mask
